@@ -343,3 +343,36 @@ func (c *countingCtx) Err() error {
 	}
 	return nil
 }
+
+// Cfg is the exported face of a search configuration, for the S-A simulator.
+type Cfg struct{ c searchCfg }
+
+// DrawCfg draws a configuration suited to the position (depth bounded by the reference budget).
+func DrawCfg(t *tape.Tape, p *rules.Pos) Cfg { return Cfg{drawCfg(t, p)} }
+
+func (c Cfg) String() string { return c.c.String() }
+func (c Cfg) MaxDepth() int  { return c.c.depth }
+
+// Search builds the real AlphaBeta; wrap interposes on the leaf evaluator (the gate).
+func (c Cfg) Search(wrap func(eval.Evaluator) eval.Evaluator) search.AlphaBeta {
+	return c.c.realSearch(wrap)
+}
+
+// PlayHistory sets up a start position of one of the tag groups and plays a tape-drawn history.
+func PlayHistory(t *tape.Tape, res *core.RunResult, small bool, maxPlies, maxReverse int) (*board.Board, *rules.Game, bool) {
+	tags := bigTags
+	if small {
+		tags = smallTags
+	}
+	gs, ok := playHistory(t, res, tags, maxPlies, maxReverse)
+	if !ok {
+		return nil, nil, false
+	}
+	return gs.b, gs.g, true
+}
+
+// Snap / Diff expose the board snapshot used by the "handed back unchanged" oracles.
+type BoardSnap struct{ s boardSnap }
+
+func Snap(b *board.Board) BoardSnap         { return BoardSnap{snap(b)} }
+func (a BoardSnap) Diff(b BoardSnap) string { return a.s.diff(b.s) }
